@@ -569,14 +569,21 @@ package vuego
 //@ spec func declVal(p string) string { trimSpace(trimSpace(p)[indexOf(trimSpace(p), ":") + 1:]) }
 //@ spec func styleIdx(parts []string, k string, i int) int decreases i {
 //@   i <= 0 ? 0 - 1 : ((declOK(parts[i-1]) && declKey(parts[i-1]) == k) ? i - 1 : styleIdx(parts, k, i - 1)) }
+// the declarations of a style string: split at the semicolons outside parentheses and quotes (trusted: a character
+// scanner; what is proved is what parseStyleMap does with each declaration)
+//@ spec func styleDecls(s string) []string
+//@ func splitStyleDeclarations(style) (r)
+//@   trusted
+//@   pure
+//@   ensures r == styleDecls(style)
 //@ func parseStyleMap(style) (r)
 //@   modifies nothing
 //@   ensures fresh(r) && r != nil
 //@   ensures C14.style.parse.empty: style == "" ==> forall k string :: !(k in r)
 //@   ensures C14.style.parse: style != "" ==> forall k string ::
-//@     ((k in r) == (styleIdx(splitParts(style, ";"), k, len(splitParts(style, ";"))) >= 0)) &&
-//@     ((k in r) ==> r[k] == declVal(splitParts(style, ";")[styleIdx(splitParts(style, ";"), k, len(splitParts(style, ";")))]))
-//@   loop 0 invariant bounds: 0 <= $i && $i <= len(parts) && fresh(result) && result != nil && parts == splitParts(style, ";")
+//@     ((k in r) == (styleIdx(styleDecls(style), k, len(styleDecls(style))) >= 0)) &&
+//@     ((k in r) ==> r[k] == declVal(styleDecls(style)[styleIdx(styleDecls(style), k, len(styleDecls(style)))]))
+//@   loop 0 invariant bounds: 0 <= $i && $i <= len(parts) && fresh(result) && result != nil && parts == styleDecls(style)
 //@   loop 0 invariant C14.style.scan: forall k string :: ((k in result) == (styleIdx(parts, k, $i) >= 0)) &&
 //@     ((k in result) ==> result[k] == declVal(parts[styleIdx(parts, k, $i)]))
 //@ func parseStyleString(style) (r)
